@@ -150,9 +150,23 @@ func VerifC14HTTPProxyListener() {
 		default:
 			h = n + "." + ns + ".svc"
 		}
-		return &model.Service{Hostname: host.Name(h), CreationTime: time.Unix(int64(1000+i), 0),
+		svc := &model.Service{Hostname: host.Name(h), CreationTime: time.Unix(int64(1000+i), 0),
 			Ports:      model.PortList{{Name: "http", Port: 80, Protocol: protocol.HTTP}},
 			Attributes: model.ServiceAttributes{Name: "s", Namespace: ns, ServiceRegistry: provider.External}}
+		// the first service may have a second HTTP port and a VIP (IPv4 or IPv6): on the port-0 listener every port
+		// contributes a virtual host, and an address is a domain of each of them
+		if i == 0 {
+			if vp.Choice(p+".twoPorts", 2) == 1 {
+				svc.Ports = append(svc.Ports, &model.Port{Name: "http-alt", Port: 8080, Protocol: protocol.HTTP})
+			}
+			switch vp.Choice(p+".vip", 3) {
+			case 1:
+				svc.DefaultAddress = "10.0.0.9"
+			case 2:
+				svc.DefaultAddress = "2001:db8::1"
+			}
+		}
+		return svc
 	}
 	svcs := []*model.Service{mk(0), mk(1)}
 	if svcs[0].Hostname == svcs[1].Hostname {
